@@ -474,9 +474,11 @@ def start_e1(ctx, stats):
         record('Entity.select_by_sql (explicit locals)', stmt, lambda: [a.id for a in A.select_by_sql(stmt, {}, dict(scope, x=2))], dict(scope, x=2))
     for stmt in ['select * from A where id = $(x+1)', "select * from A where v = $d['k'] and s is null"]:
         record('Entity.get_by_sql', stmt, lambda: e1_call('Entity.get_by_sql', db, A, stmt), scope)
-    for frag in ['a.v = $x', "a.v = $d['k'] and a.s = $y;", 'a.id = $(x + 1) or a.v % $l[0] = $(x);', "a.s = '$$' or a.v = $f(x)"]:
+    # several fragments have the same parameter types: each must get its own translation
+    for frag in ['a.v = $x', "a.v = $d['k'] and a.s = $y;", 'a.id = $(x + 1) or a.v % $l[0] = $(x);', "a.s = '$$' or a.v = $f(x)",
+                 'a.id = $x', 'a.v > $x;', "a.id = $l[0] and a.s = $y"]:
         record('raw_sql in filter', frag, lambda: e1_call('raw_sql in filter', db, A, frag), scope)
-    for frag in ['a.v + $x', "a.s || $y || $d['k'];"]:
+    for frag in ['a.v + $x', 'a.id - $x;', "a.s || $y || $d['k'];"]:
         record('raw_sql in result', frag, lambda: e1_call('raw_sql in result', db, A, frag), scope)
     for frag in ['abs(a.v - $l[0]), a.id', 'a.id * $(x - 2);']:
         record('raw_sql in order_by', frag, lambda: e1_call('raw_sql in order_by', db, A, frag), scope)
@@ -491,8 +493,9 @@ def start_e1(ctx, stats):
             continue
         sql, args = user[0]
         if label.startswith('raw_sql'):
-            # only the values are judged here (the text around the fragment is the translator's)
-            cases.append({'s': list(stmt), 'hist': [], 'same': 0, 'outs': [{'st': 'items', 'ok': 1, 'h': 1, 't': e1_items(stmt)}]})
+            # the statement the driver received must contain the fragment's text (the rest is the translator's)
+            cases.append({'s': list(stmt), 'hist': [], 'same': 0,
+                          'outs': [{'st': 'embedded', 'ok': 1, 'h': 0 if args is None else 1, 't': list(sql)}]})
         else:
             cases.append({'s': list(stmt), 'hist': [], 'same': 0,
                           'outs': [{'st': 'qmark', 'ok': 1, 'h': 0 if args is None else 1, 't': list(sql)}]})
